@@ -121,6 +121,12 @@ pub fn decode_c04(b: &[u8]) -> c04::Case {
     c04::Case { cfg, history, continuation }
 }
 
+fn r2_cfg(b: &[u8]) -> Cfg {
+    // unrelated instance: configuration decoded from the tail of the input
+    let rev: Vec<u8> = b.iter().rev().cloned().collect();
+    R::new(&rev).cfg(24)
+}
+
 pub fn decode_c05(b: &[u8]) -> c05::Case {
     let mut r = R::new(b);
     let cfg = r.cfg(24);
@@ -131,7 +137,8 @@ pub fn decode_c05(b: &[u8]) -> c05::Case {
         ops.push(c05::COp { target: [0u8, 1, 0, 1, 2][t as usize % 5], inp: r.inp() });
     }
     let clone_at = if ops.is_empty() { 0 } else { clone_frac * ops.len() / 256 };
-    c05::Case { cfg, ops, clone_at }
+    let other = if ops.len() % 2 == 0 { Some(r2_cfg(b)) } else { None };
+    c05::Case { cfg, other, replay_in_new_thread: false, ops, clone_at }
 }
 
 #[cfg(feature = "serde")]
